@@ -83,6 +83,9 @@ class Ctx:
             return 'known'
         if any(v['key'] == key for v in self.violations):
             return 'dup'
+        if len(self.violations) >= 25:          # enough witnesses: count the rest, write no more replay files
+            self.more_violations = getattr(self, 'more_violations', 0) + 1
+            return 'violation'
         rp = os.path.join(ROOT, 'replays')
         os.makedirs(rp, exist_ok=True)
         path = os.path.join(rp, '%s-%s.json' % (self.pid, key[:12]))
@@ -113,6 +116,8 @@ class Ctx:
         for v in self.violations:
             print('VIOLATION property=%s replay=%s' % (self.pid, v['replay']))
             log('  why:', v['desc'])
+        if getattr(self, 'more_violations', 0):
+            log('  (+%d further violations not written out)' % self.more_violations)
         sys.stdout.flush()
         return 1 if self.violations else 0
 
